@@ -53,7 +53,15 @@ def cases(tier, seed, args):
             K = int(rng.integers(4, 6 if q else 7))
             out.append(dict(t='assign_rand', K=K, seed=int(rng.integers(1 << 30)),
                             hi=int(rng.integers(1, 6)), alg=['greedy', 'optimal'][i % 2]))
+        # the top of the property's domain in every tier: K = 6 (720 permutations per matrix)
+        for i in range(12 if q else 60):
+            out.append(dict(t='assign_rand', K=6, seed=int(rng.integers(1 << 30)), hi=int(rng.choice([3, 9, 9, 20])),
+                            alg=['optimal', 'optimal', 'greedy'][i % 3]))
     if prop == 'C14':
+        for i in range(18 if q else 120):
+            out.append(dict(t='inline_apply', K=[3, 4, 3, 2][i % 4], F=int(rng.choice([5, 9, 17, 33])), T=int(rng.integers(1, 12)) if i % 6 else 1,
+                            seed=int(rng.integers(1 << 30)), aligner=['greedy', 'dhtv', 'dhtv'][i % 3],
+                            metric=['cos', 'euclidean', 'cos'][(i // 3) % 3]))
         n = 120 if q else 1200
         for i in range(n):
             K = int(rng.integers(1, 7))
@@ -138,6 +146,11 @@ def cases(tier, seed, args):
                             K=K, F=F, T=T, seed=int(rng.integers(1 << 30)),
                             metric=['cos', 'euclidean', 'multiply'][(i // 4) % 3],
                             alg=['greedy', 'optimal'][(i // 12) % 2]))
+        # the top of the domain in every tier: F = 257 / 513 (the shipped DHTV defaults exist only there)
+        for i in range(8 if q else 24):
+            out.append(dict(t='consist', aligner=['greedy', 'dhtv_default', 'greedy', 'identity'][i % 4], K=int(rng.integers(2, 5)),
+                            F=[257, 513][(i // 4) % 2], T=int(rng.integers(8, 20)), seed=int(rng.integers(1 << 30)),
+                            metric=['cos', 'euclidean'][(i // 2) % 2], alg='greedy'))
     if prop == 'C16trace':
         for i in range(24 if q else 240):
             out.append(dict(t='dhtv_trace', K=int(rng.integers(1, 5)), F=int(rng.choice([1, 3, 5, 9, 13] if q else [1, 3, 5, 9, 17, 33])),
@@ -270,15 +283,20 @@ def _run_aligner(case):
     rng = np.random.default_rng(case['seed'])
     K, F, T = case['K'], case['F'], case['T']
     mask = _mask(rng, K, F, T, case['regime'], case['dtype'])
+    lay = ['C', 'F', 'view', 'C'][case['seed'] % 4]
+    if lay == 'F':
+        mask = np.asfortranarray(mask)                          # same values, Fortran-ordered buffer
+    elif lay == 'view':
+        mask = np.ascontiguousarray(mask.transpose(2, 1, 0)).T  # (T, F, K) array seen as (K, F, T)
     before = mask.copy()
     kind = case['aligner']
-    fp = f'aligner={kind};metric={case["metric"]};alg={case["alg"]};regime={case["regime"]}'
+    fp = f'aligner={kind};metric={case["metric"]};alg={case["alg"]};regime={case["regime"]};layout={lay}'
     key = f'{kind}:{case["seed"]}'
     recs = []
     if kind == 'apply':
         mapping = pa.sample_random_mapping(K, F, np.random.RandomState(case['seed'] % (1 << 31)))
         out, exc = _call(pa.apply_mapping, mask, mapping)
-        recs.append(_apply_record(before, mask, mapping, out, exc, 'fn=apply_mapping', key))
+        recs.append(_apply_record(before, mask, mapping, out, exc, f'fn=apply_mapping;layout={lay}', key))
         return recs
     if kind == 'dhtv':
         al, cfg = _dhtv_for(F, rng, case['metric'], case['alg'])
@@ -299,6 +317,38 @@ def _run_aligner(case):
     if mapping is not None:
         out, exc = _call(full)
     recs.append(_apply_record(before, mask, mapping, out, exc, fp, key))
+    return recs
+
+
+def _inline_apply(case):
+    """EM inline alignment: posteriors AND quadratic forms (F, K, T) reordered together by the aligner's own mapping."""
+    from pb_bss.distribution import mixture_model_utils as mmu
+    rng = np.random.default_rng(case['seed'])
+    K, F, T = case['K'], case['F'], case['T']
+    # frequency-permuted consistent activity pattern (so that non-trivial, non-involutive permutations are undone)
+    base = rng.random((K, 1, T)) ** 3 + 0.02
+    ref = base * (1 + 0.1 * rng.random((K, F, T)))
+    field = np.stack([rng.permutation(K) for _ in range(F)], axis=1)
+    aff_kft = pa.apply_mapping(ref, field)
+    aff_kft = aff_kft / aff_kft.sum(0, keepdims=True)
+    aff = np.ascontiguousarray(np.transpose(aff_kft, (1, 0, 2)))            # (F, K, T)
+    qf = rng.uniform(0.5, 2.0, size=(F, K, T))
+    al = pa.GreedyPermutationAlignment(similarity_metric=case['metric']) if case['aligner'] == 'greedy' else \
+        _dhtv_for(F, rng, case['metric'], ['optimal', 'greedy'][case['seed'] % 2])[0]
+    wca = [(-3,), (-3, -1), -3][case['seed'] % 3]
+    a0, q0 = aff.copy(), qf.copy()
+    res, exc = _call(mmu.apply_inline_permutation_alignment, aff, quadratic_form=qf, weight_constant_axis=wca, aligner=al)
+    mapping, e2 = _call(al.calculate_mapping, np.transpose(a0, (1, 0, 2)))
+    fp = f'fn=apply_inline_permutation_alignment;aligner={case["aligner"]};metric={case["metric"]};K={K}'
+    key = f'inl:{case["seed"]}'
+    recs = []
+    for name, x0, x1 in (('aff', a0, None if res is None else res[0]), ('qf', q0, None if res is None else res[1])):
+        m0 = np.transpose(x0, (1, 0, 2))
+        m1 = None if x1 is None else np.transpose(x1, (1, 0, 2))
+        recs.append(_apply_record(None, m0, mapping, m1, exc or e2, fp + ';' + name, key + name))
+    if enc.digest(a0) != enc.digest(aff) or enc.digest(q0) != enc.digest(qf):
+        for r in recs:
+            r['exc'] = 'InputMutated'
     return recs
 
 
@@ -559,6 +609,8 @@ def run_case(case):
         return [_rec_assignf(case)]
     if t == 'aligner':
         return _run_aligner(case)
+    if t == 'inline_apply':
+        return _inline_apply(case)
     if t == 'oracle_inv':
         return _oracle_inv(case)
     raise ValueError(t)
